@@ -19,7 +19,7 @@ from kopf._cogs.structs import bodies, diffs, patches
 from kopf._core.intents import causes, handlers as handlers_, registries
 
 from kv.explorer import Env, Scenario, Stats, Violation, execute
-from kv.harness.change import FINALIZER, ChangeScenario, essence_ref, last_handled
+from kv.harness.change import FINALIZER, ChangeScenario, any_progress_keys, essence_ref, last_handled
 from kv.harness.op import resource_of
 from kv.runner import CheckResult, run_groups
 from kv.world import KEX
@@ -149,9 +149,14 @@ class C05Scenario(ChangeScenario):
         if env.end_reason in ('stall', 'livelock', 'step-budget', 'deadlock'):
             return [self.viol(env, 'no-progress', f'execution ended with {env.end_reason}', end=env.end_reason)]
         current: dict[tuple[str, str], dict] = {}     # (op, uid) -> the event being processed (from the probe)
+        sights: dict[tuple[str, str], int] = {}       # (op, uid) -> how many events of the object this process has processed
+        first_type: dict[tuple[str, str], Any] = {}
+        clean = not self.carveouts(env) and not env.time_while_pending
         for t, k, p in env.obs:
             if k == 'call' and p['id'] == 'ev':
                 current[(p['op'], p['uid'])] = p
+                sights[(p['op'], p['uid'])] = sights.get((p['op'], p['uid']), 0) + 1
+                first_type.setdefault((p['op'], p['uid']), p.get('etype'))
                 continue
             if k != 'call' or p.get('reason') not in ('create', 'update', 'delete', 'resume'):
                 continue
@@ -174,6 +179,17 @@ class C05Scenario(ChangeScenario):
                 continue
             eraw = ev['raw']
             emeta = eraw.get('metadata', {})
+            # "resume = first sight after start": resume handlers belong to the first cycle of an object that the
+            # process found in its initial listing. A later event that carries no unfinished progress cannot be that
+            # cycle any more (the earlier one was completed, or there was nothing to do).
+            if kind['on'] == 'resume':
+                key = (p['op'], p['uid'])
+                if first_type.get(key) is not None:
+                    out.append(self.viol(env, 'resume-not-first-sight', f"t={t}: resume handler {hid} invoked for an object this process first saw "
+                                                                        f"through the watch ({first_type[key]}), not in its initial listing", clause='first-sight', how='watch'))
+                elif sights.get(key, 0) > 1 and not any_progress_keys(eraw) and clean:
+                    out.append(self.viol(env, 'resume-not-first-sight', f"t={t}: resume handler {hid} invoked (reason={reason}) on event #{sights[key]} of the object "
+                                                                        f"in this process although no handling was in progress: not the first sight", clause='first-sight', how='later-event'))
             old = last_handled(eraw)
             differs = old is not None and old != essence_ref(eraw)
             emarked = 'deletionTimestamp' in emeta
@@ -223,26 +239,29 @@ def histories(depth: int, bare: bool) -> list[list[tuple[str, ...]]]:
     return out
 
 
-def build(history: list[tuple[str, ...]], bare: bool, spacing: float, **kw: Any) -> C05Scenario:
+def build(history: list[tuple[str, ...]], bare: bool, spacing: float, preexisting: bool = False, **kw: Any) -> C05Scenario:
     handlers = [dict(id='ev', on='event', script=['ok']),
                 dict(id='c1', on='create', script=['ok']), dict(id='u1', on='update', script=['temp', 'ok']),
                 dict(id='d1', on='delete', script=['temp', 'ok']), dict(id='r1', on='resume', script=['ok']),
                 dict(id='r2', on='resume', script=['ok'], deleted=True)]
     t = 1.0
-    user: list[tuple] = [(t, 'createbare' if bare else 'create', 'a')]
+    user: list[tuple] = [(t, 'createbare' if bare else 'create', 'a')] if not preexisting else []
+    if preexisting:     # created while no operator was running: found by the initial listing, never handled before
+        kw['pre'] = [('a', None if bare else {'x': 1})]
     for a in history:
         t += spacing
         user.append((t, *a))
     return C05Scenario(handlers=handlers, user=user, horizon=t + 20.0, history=[list(a) for a in history], bare=bare,
-                       spacing=spacing, settings={'persistence__consistency_timeout': 5.0}, **kw)
+                       spacing=spacing, preexisting=preexisting, settings={'persistence__consistency_timeout': 5.0}, **kw)
 
 
 def run(tier: str, seed: int) -> CheckResult:
     rows, distinct, samples, tviols = table_check()
     depth = 3 if tier == 'quick' else 4
-    hist = [build(h, bare, sp, delays=False, early_user=False, time_dev=False)
-            for bare in (True, False) for h in histories(depth, bare) for sp in ((6.0,) if tier == 'quick' else (6.0, 0.0))]
-    timing = [build(h, bare, 2.0, kills=True) for bare in (True, False) for h in histories(1 if tier == 'quick' else 2, bare)]
+    hist = [build(h, bare, sp, pre, delays=False, early_user=False, time_dev=False)
+            for bare in (True, False) for pre in (False, True) for h in histories(depth if not pre else depth - 1, bare)
+            for sp in ((6.0,) if tier == 'quick' else (6.0, 0.0))]
+    timing = [build(h, bare, 2.0, pre, kills=True) for bare in (True, False) for pre in (False, True) for h in histories(1 if tier == 'quick' else 2, bare)]
     if tier == 'quick':
         groups = [('histories', hist, 0, 60.0), ('timing+kills', timing, 1, 40.0)]
     else:
